@@ -439,6 +439,51 @@ class Check:
                        if body != "nil" else [])
         return res
 
+    # -- second tie: re-translation of scalar kernels from the current source -----------
+    def translation_tie(self):
+        """Re-translate the scalar kernels that serve this property from the CURRENT source
+        (harness/pytrans.py) and let Coq check `translated = hand-written model` by
+        reflexivity.  Returns {tie name: "ok" | reason}.  A broken tie is recorded in the
+        evidence (coverage.translation_tie) and returned so that the caller can deepen its
+        correspondence run; it is not an alarm by itself (see DESIGN §9.8)."""
+        import pytrans
+        import translation_ties as tt
+        res = {}
+        mine = [t for t in tt.TIES if self.pid in t["props"]]
+        if not mine:
+            return res
+        texts = {}
+        for t in mine:
+            try:
+                defs = []
+                known = {}
+                for c in t.get("calls", []):
+                    dep = next(x for x in tt.TIES if x["name"] == c)
+                    tr = pytrans.Translator(known={}, given=dep["given"])
+                    defs.append(tr.function(pytrans.source_of(dep["file"]), dep["py"], "tr_" + dep["name"], dep["params"]))
+                    known[dep["py"]] = ("tr_" + dep["name"], 1)
+                tr = pytrans.Translator(known=known, given=t["given"])
+                defs.append(tr.function(pytrans.source_of(t["file"]), t["py"], "tr_" + t["name"], t["params"]))
+                binders = " ".join("v_" + a for a in t["params"])
+                lemma = (f"Lemma tie_{t['name']} : forall (T : Type) (N : Num T) ({binders} : T),\n"
+                         f"  tr_{t['name']} N {binders} = {t['model']}.\nProof. intros. reflexivity. Qed.\n")
+                texts[t["name"]] = tt.IMPORTS + "\n".join(defs) + "\n" + lemma
+            except pytrans.Untranslatable as e:
+                res[t["name"]] = f"untranslatable: {e}"
+            except Exception as e:  # noqa: BLE001  (source file missing, function renamed ...)
+                res[t["name"]] = f"untranslatable: {type(e).__name__}: {e}"
+        for name, text in texts.items():
+            try:
+                self.coq_eval(f"tie_{name}", text, timeout=300)
+                res[name] = "ok"
+            except RuntimeError as e:
+                res[name] = "translated definition is not convertible with the model: " + str(e)[-400:].replace("\n", " ")
+        self.cov["translation_tie"] = res
+        broken = {k: v for k, v in res.items() if v != "ok"}
+        for k, v in broken.items():
+            print(f"# {self.pid}: translation tie '{k}' broken ({v[:120]}); the correspondence run decides", flush=True)
+        return res
+
     # -- OCaml ----------------------------------------------------------
     def ocaml_driver(self, name):
         """Build (if needed) and return the path of ocaml driver `name`
